@@ -681,6 +681,10 @@ func parseField(v reflect.Value, bytes []byte, initOffset int, params fieldParam
 		}
 		if t.class == expectedClass && t.tag == *params.tag && (t.length == 0 || t.isCompound) {
 			if t.length > 0 {
+				if offset == len(bytes) {
+					err = StructuralError{"explicit tag has no child"}
+					return
+				}
 				t, offset, err = parseTagAndLength(bytes, offset)
 				if err != nil {
 					return
